@@ -303,8 +303,10 @@ def project_cell(cell, servers_in, buckets_in, blevel, bparent, allocs_in, clock
         allocs[n] = dict(rank=int(al.rank), adj=int(al.rank_adjustment), reserved=ivec(al.reserved),
                          maxutil=(-1 if mu == float('inf') else int(mu)),
                          label=al.label or '')
+    nea = cell.next_event_at
     return dict(clock=clock, servers=servers, buckets=buckets, apps=apps,
-                groups=groups, allocs=allocs)
+                groups=groups, allocs=allocs,
+                nea=(-1 if nea == float('inf') else relf(float(nea))))
 
 
 def replay(scn, history):
